@@ -74,6 +74,8 @@ def _unwrap_item(it):
         return gen()
     if u == "self":
         return it
+    if u == "raise":
+        raise ValueError("boom-%s" % it.name)
     if u == "cycle":
         return realize(s["ch"][0])
     raise AssertionError(u)
@@ -160,8 +162,56 @@ def run_c10(req):
     return res
 
 
+def run_c16(req):
+    """extract_outermost(x) vs extract(x) on custom item trees (no elaborate hooks)."""
+    init()
+    ELAB.clear()
+    ITEMS.clear()
+    del LOG[:]
+    root = realize(req["root"])
+    obs = []
+    st = extract(root)
+    stats = {"frames": len(st.frames), "error": st.error is not None}
+    try:
+        fo = stackscope.extract_outermost(root)
+    except BaseException as ex:
+        if st.frames:
+            obs.append({"kind": "outermost_raised_but_frames_exist", "exc": repr(ex)})
+        elif st.error is not None:
+            errs = list(getattr(st.error, "exceptions", None) or [st.error])
+            if not any(type(ex) is type(e) and str(ex) == str(e) for e in errs) and not (
+                    type(ex) is type(st.error) and str(ex) == str(st.error)):
+                obs.append({"kind": "outermost_raised_other_error", "exc": repr(ex), "recorded": repr(st.error)})
+        elif not isinstance(ex, Exception):
+            obs.append({"kind": "outermost_raised_baseexception", "exc": repr(ex)})
+    else:
+        if not st.frames:
+            obs.append({"kind": "outermost_did_not_raise", "got": fo.funcname})
+        else:
+            a = st.frames[0]
+            if not (fo.pyframe is a.pyframe and fo.lineno == a.lineno and fo.contexts == a.contexts
+                    and fo.hide == a.hide and fo.hide_line == a.hide_line and fo.origin is a.origin):
+                obs.append({"kind": "outermost_differs", "got": fo.funcname, "exp": a.funcname})
+    for f in st.frames:
+        if f.origin is not None:
+            import weakref
+            try:
+                weakref.ref(f.origin)
+                if stackscope.extract_outermost(f.origin).pyframe is not f.pyframe:
+                    obs.append({"kind": "origin_recovers_other_frame", "frame": f.funcname})
+            except BaseException as ex:
+                obs.append({"kind": "origin_contract_raised", "frame": f.funcname, "exc": repr(ex)})
+            own = POOL[int(f.funcname[1:])][0]
+            if f.origin is not own:
+                obs.append({"kind": "origin_is_not_owner", "frame": f.funcname})
+    ITEMS.clear()
+    return {"obs": obs, "stats": stats}
+
+
 def handle(req):
     op = req["op"]
     if op == "hooks.c10":
         return run_c10(req)
+    if op == "hooks.c16":
+        return run_c16(req)
     raise AssertionError(op)
